@@ -479,35 +479,62 @@ func (e *Exec) specUnify(l, r TV) (Term, Term) {
 }
 
 // directIndexBase finds, in body, an index expression X[v] (v the bound variable itself, X free
-// of bound variables) and returns X.
-func directIndexBase(body SExpr, v string, bound map[string]bool) SExpr {
+// of bound variables) and returns X and whether it sits inside old(...).
+func directIndexBase(body SExpr, v string, bound map[string]bool) (SExpr, bool) {
 	var found SExpr
-	walkSpec(body, func(x SExpr) {
-		if found != nil {
+	foundOld := false
+	var walk func(x SExpr, inOld bool)
+	walk = func(x SExpr, inOld bool) {
+		if found != nil || x == nil {
 			return
 		}
-		ix, ok := x.(*SIndex)
-		if !ok {
-			return
-		}
-		id, ok := ix.I.(*SIdent)
-		if !ok || id.Name != v {
-			return
-		}
-		clean := true
-		walkSpec(ix.X, func(y SExpr) {
-			if yi, ok := y.(*SIdent); ok && bound[yi.Name] {
-				clean = false
+		switch y := x.(type) {
+		case *SIndex:
+			if id, ok := y.I.(*SIdent); ok && id.Name == v {
+				clean := true
+				walkSpec(y.X, func(z SExpr) {
+					if zi, ok := z.(*SIdent); ok && bound[zi.Name] {
+						clean = false
+					}
+					if _, ok := z.(*SQuant); ok {
+						clean = false
+					}
+				})
+				if clean {
+					found = y.X
+					foundOld = inOld
+					return
+				}
 			}
-			if _, ok := y.(*SQuant); ok {
-				clean = false
+			walk(y.X, inOld)
+			walk(y.I, inOld)
+		case *SOld:
+			walk(y.X, true)
+		case *SBin:
+			walk(y.L, inOld)
+			walk(y.R, inOld)
+		case *SUn:
+			walk(y.X, inOld)
+		case *SCall:
+			for _, a := range y.Args {
+				walk(a, inOld)
 			}
-		})
-		if clean {
-			found = ix.X
+		case *SSliceE:
+			walk(y.X, inOld)
+			walk(y.Lo, inOld)
+			walk(y.Hi, inOld)
+		case *SField:
+			walk(y.X, inOld)
+		case *SQuant:
+			walk(y.Lo, inOld)
+			walk(y.Hi, inOld)
+			walk(y.Body, inOld)
+		case *SAssert:
+			walk(y.X, inOld)
 		}
-	})
-	return found
+	}
+	walk(body, false)
+	return found, foundOld
 }
 
 func (e *Exec) trQuant(x *SQuant, env *SpecEnv) TV {
@@ -544,8 +571,15 @@ func (e *Exec) trQuant(x *SQuant, env *SpecEnv) TV {
 		} else {
 			// absolute addressing: when the variable directly indexes a slice, the SMT variable is the
 			// element address (base + i), so that its trigger (select A p) contains no arithmetic
-			if bx := directIndexBase(innermost, q.Var, bound); bx != nil {
-				if btv, ok := e.tryTr(bx, env); ok && btv.T.Sort == SSlice {
+			if bx, bxOld := directIndexBase(innermost, q.Var, bound); bx != nil {
+				benv := env
+				if bxOld {
+					n := *env
+					n.cur = env.old
+					n.inOld = true
+					benv = &n
+				}
+				if btv, ok := e.tryTr(bx, benv); ok && btv.T.Sort == SSlice {
 					root, delta := splitOff(SOff(btv.T))
 					base := Add(root, delta)
 					if base.S != "0" {
